@@ -545,7 +545,12 @@ def compileADF(expr, psets):
     for pset, subexpr in reversed(list(zip(psets, expr))):
         pset.context.update(adfdict)
         func = compile(subexpr, pset)
-        adfdict.update({pset.name: func})
+        if len(pset.arguments) > 0:
+            adfdict.update({pset.name: func})
+        else:
+            # compile returns the value of a tree without argument, while
+            # the primitive added by addADF is printed as a call: "ADF0()".
+            adfdict.update({pset.name: lambda value=func: value})
     return func
 
 
